@@ -860,6 +860,7 @@ namespace link_layer {
         std::uint8_t                    phy_update_request_receive_;
         bool                            remote_versions_request_pending_;
         bool                            version_indication_received_;
+        bool                            version_indication_sent_;
 
         // default configuration parameters
         typedef                         advertising_interval< 100 >         default_advertising_interval;
@@ -894,6 +895,7 @@ namespace link_layer {
         , phy_update_request_pending_( false )
         , remote_versions_request_pending_( false )
         , version_indication_received_( false )
+        , version_indication_sent_( false )
     {
         using user_timer_t = typename bluetoe::details::find_by_meta_type<
             details::synchronized_connection_event_callback_meta_type,
@@ -952,6 +954,7 @@ namespace link_layer {
                 pending_event_                          = false;
                 remote_versions_request_pending_        = false;
                 version_indication_received_            = false;
+                version_indication_sent_                = false;
                 disconnecting_reason_                   = connection_timeout;
                 procedure_timeout_                      = delta_time();
 
@@ -1311,18 +1314,24 @@ namespace link_layer {
         }
         else if ( remote_versions_request_pending_ )
         {
-            procedure_timeout_ = delta_time( default_procedure_timeout_us );
             remote_versions_request_pending_ = false;
 
-            fill< layout_t >( out_buffer, {
-                ll_control_pdu_code, 6, LL_VERSION_IND,
-                LL_VERSION_NR,
-                static_cast< std::uint8_t >( company_identifier ),
-                static_cast< std::uint8_t >( company_identifier >> 8 ),
-                0x00, 0x00
-            } );
+            // only one LL_VERSION_IND per connection
+            if ( !version_indication_sent_ )
+            {
+                procedure_timeout_ = delta_time( default_procedure_timeout_us );
+                version_indication_sent_ = true;
 
-            this->commit_ll_transmit_buffer( out_buffer );
+                fill< layout_t >( out_buffer, {
+                    ll_control_pdu_code, 6, LL_VERSION_IND,
+                    LL_VERSION_NR,
+                    static_cast< std::uint8_t >( company_identifier ),
+                    static_cast< std::uint8_t >( company_identifier >> 8 ),
+                    0x00, 0x00
+                } );
+
+                this->commit_ll_transmit_buffer( out_buffer );
+            }
         }
         else if ( this->connection_parameters_response_pending() )
         {
@@ -1579,18 +1588,27 @@ namespace link_layer {
             }
             else if ( opcode == LL_VERSION_IND && size == 6 && !version_indication_received_ )
             {
-                procedure_timeout_ = delta_time();
-
                 if ( body[ 1 ] <= LL_VERSION_40 )
                     used_features_ = used_features_ & ~link_layer_feature::connection_parameters_request_procedure;
 
-                fill< layout_t >( write, {
-                    ll_control_pdu_code, 6, LL_VERSION_IND,
-                    LL_VERSION_NR,
-                    static_cast< std::uint8_t >( company_identifier ),
-                    static_cast< std::uint8_t >( company_identifier >> 8 ),
-                    0x00, 0x00
-                } );
+                if ( version_indication_sent_ )
+                {
+                    // the answer to the version exchange started by this side: only one LL_VERSION_IND per connection
+                    procedure_timeout_ = delta_time();
+                    commit = false;
+                }
+                else
+                {
+                    version_indication_sent_ = true;
+
+                    fill< layout_t >( write, {
+                        ll_control_pdu_code, 6, LL_VERSION_IND,
+                        LL_VERSION_NR,
+                        static_cast< std::uint8_t >( company_identifier ),
+                        static_cast< std::uint8_t >( company_identifier >> 8 ),
+                        0x00, 0x00
+                    } );
+                }
 
                 this->version_indication_received( &body[ 1 ], connection_data_, static_cast< radio_t& >( *this ) );
                 version_indication_received_ = true;
